@@ -23,6 +23,7 @@ PROPS['C11'] = dict(
                  'with modulator scaling on or CC74 < 127 nothing but range and brightness-monotonicity is required of modulators'],
     stages=[
         dict(name='cube', variant='asan', harness='c11_volume.cpp', quick=640, thorough=640, budget=300, opts=dict(reps=4)),
+        dict(name='arp', variant='asan', harness='c11_volume.cpp', quick=3000, thorough=40000, budget=60),
         dict(name='config', variant='asan', harness='c11_volume.cpp', quick=1280, thorough=1280, budget=300, opts=dict(reps=4)),
     ],
 )
